@@ -24,12 +24,13 @@ import (
 	"encoding/json"
 	"errors"
 	"sync"
+	"sync/atomic"
 	"time"
 
+	"github.com/fxamacker/cbor/v2"
 	"github.com/ipfs/boxo/blockservice"
 	"github.com/ipfs/boxo/blockstore"
 	"github.com/ipfs/boxo/exchange"
-	"github.com/fxamacker/cbor/v2"
 	blocks "github.com/ipfs/go-block-format"
 	"github.com/ipfs/go-cid"
 	"github.com/ipld/go-ipld-prime/datamodel"
@@ -40,8 +41,8 @@ import (
 	"github.com/libp2p/go-libp2p/core/peerstore"
 	"github.com/multiformats/go-multiaddr"
 	"github.com/sourcenetwork/corekv"
-	grpcpeer "google.golang.org/grpc/peer"
 	"github.com/sourcenetwork/immutable"
+	grpcpeer "google.golang.org/grpc/peer"
 
 	"github.com/sourcenetwork/defradb/client"
 	"github.com/sourcenetwork/defradb/event"
@@ -141,12 +142,13 @@ func (t *lTxn) GetCollections(ctx context.Context, opts client.CollectionFetchOp
 
 type lDB struct {
 	store *vStore
-	next  uint64
+	next  atomic.Uint64
 }
 
 func (d *lDB) NewTxn(ctx context.Context, readOnly bool) (client.Txn, error) {
-	d.next++
-	return &lTxn{BasicTxn: datastore.NewTxnFrom(ctx, d.store, d.next, readOnly)}, nil
+	// (the real DB hands out transaction ids from an atomic counter: safe for concurrent use)
+	id := d.next.Add(1)
+	return &lTxn{BasicTxn: datastore.NewTxnFrom(ctx, d.store, id, readOnly)}, nil
 }
 func (d *lDB) GetNodeIdentityToken(ctx context.Context, audience immutable.Option[string]) ([]byte, error) {
 	return nil, nil
@@ -154,10 +156,10 @@ func (d *lDB) GetNodeIdentityToken(ctx context.Context, audience immutable.Optio
 func (d *lDB) Rootstore() corekv.TxnStore { return d.store }
 
 type lEnv struct {
-	p   *Peer
-	db  *lDB
-	ctx context.Context
-	pid peer.ID
+	p    *Peer
+	db   *lDB
+	ctx  context.Context
+	pid  peer.ID
 	pids []peer.ID
 
 	version, delivered [2]int
@@ -242,6 +244,12 @@ func (e *lEnv) duringCommit() {
 // a commit on document d of the sending node: a new composite block on top of the current head, stored, made
 // the head; then the first push to the replicator (what pushLogToReplicators starts for an update event)
 func (e *lEnv) commit(d int) {
+	evt := e.commitEvt(d)
+	_ = e.p.server.pushLog(evt, e.pid)
+}
+
+// the commit without its first push: the update event that the push is made for
+func (e *lEnv) commitEvt(d int) event.Update {
 	e.version[d]++
 	v := e.version[d]
 	sv := lVersions[vChoose("schema-version", len(lVersions))]
@@ -286,7 +294,7 @@ func (e *lEnv) commit(d int) {
 	}
 	e.heads[d] = c
 	vObserve("commit", d*100+v)
-	_ = e.p.server.pushLog(event.Update{DocID: lDocIDs[d], Cid: c, CollectionID: lRoot, Block: raw}, e.pid)
+	return event.Update{DocID: lDocIDs[d], Cid: c, CollectionID: lRoot, Block: raw}
 }
 
 // the network push
@@ -420,13 +428,13 @@ func (lBlockService) Exchange() exchange.Interface { return lExchange{} }
 
 type lPeerstore struct{ peerstore.Peerstore }
 
-func (lPeerstore) ClearAddrs(p peer.ID)                                            {}
+func (lPeerstore) ClearAddrs(p peer.ID)                                               {}
 func (lPeerstore) AddAddrs(p peer.ID, addrs []multiaddr.Multiaddr, ttl time.Duration) {}
 
 type lHost struct{ host.Host }
 
-func (lHost) Peerstore() peerstore.Peerstore                          { return lPeerstore{} }
-func (lHost) Connect(ctx context.Context, pi peer.AddrInfo) error     { return nil }
+func (lHost) Peerstore() peerstore.Peerstore                      { return lPeerstore{} }
+func (lHost) Connect(ctx context.Context, pi peer.AddrInfo) error { return nil }
 
 // redirect target of blocks.NewBlock (hashes its argument; only handed to the exchange stub)
 func lNewBlock(data []byte) *blocks.BasicBlock {
@@ -723,4 +731,32 @@ func VerifH_C04_ReceivedBlockFiledUnderItsHash() {
 		}
 	}
 	vObserve("filed", len(filed) <= 2)
+}
+
+// VerifH_C15_ConcurrentFailures — two commits on different documents whose first pushes fail at the same time: the two
+// failure handlers (server.pushLog -> Peer.handleReplicatorFailure, real transactions over the store model) run as two
+// goroutines under every schedule within the bound; afterwards the peer is reachable and the retry loop runs: both
+// commits are delivered (a failure handler that loses its record to a transaction conflict leaves a commit that
+// nothing retries).
+func VerifH_C15_ConcurrentFailures() {
+	e := lNewEnv()
+	evt0, evt1 := e.commitEvt(0), e.commitEvt(1)
+	verifPush = func(evt event.Update, pid peer.ID) error { return lErrUnreachable }
+	vRunThreads(
+		func() { _ = e.p.server.pushLog(evt0, e.pid) },
+		func() { _ = e.p.server.pushLog(evt1, e.pid) },
+	)
+	verifPush = e.push
+	e.quiescent = true
+	for r := 0; r < vConfInt("rounds"); r++ {
+		e.tick()
+	}
+	vCover("quiescent")
+	for d := range e.version {
+		if e.delivered[d] != e.version[d] {
+			vBound(!e.stillOwedAndRetriable(d), "retry-still-pending-after-the-last-round")
+		}
+		vAssert(e.delivered[d] == e.version[d], "every-commit-delivered-once-the-peer-is-reachable")
+	}
+	vObserve("delivered", e.delivered[0]+e.delivered[1])
 }
